@@ -3,11 +3,11 @@ package main
 import (
 	"errors"
 	"fmt"
-	"time"
 	"go/types"
 	"math"
 	"strconv"
 	"strings"
+	"time"
 	"unicode"
 
 	"golang.org/x/tools/go/ssa"
